@@ -59,6 +59,11 @@ def handleScrape : Verdict := .accept
 
 /-! ## key refreshes interleaved with validations (operation granularity) -/
 
+/-- what a fetched JWK set publishes: the entries that decode to a public key; the others (key types the library
+does not know, malformed parameters) are passed over (D34) -/
+def publish (entries : List (String × Option Nat)) : KeySet :=
+  entries.filterMap fun e => e.2.map fun k => (e.1, k)
+
 inductive Ev where
   | refresh (ks : KeySet)                     -- a successful `updateKeys` publishes a whole new set
   | refreshFailed                             -- fetch/decode error: the published set stays
